@@ -81,7 +81,6 @@ Section Refinement.
 Variable init_cap : Z.
 Variable alloc_ok : Z -> bool.
 Hypothesis init_range : 0 < init_cap <= 65536.
-Hypothesis alloc_small : forall sz, sz <= 1125899906842624 -> alloc_ok sz = true.
 (* no allocator hands out 2^62 bytes or more (only used for the "huge length" probe) *)
 Hypothesis alloc_bounded : forall sz, alloc_ok sz = true -> sz <= 4611686018427387904.
 
@@ -100,17 +99,21 @@ Definition bop_wf (op : bop) : Prop :=
   | _ => True
   end.
 
+(* why a reservation may fail: the request is not small, or the allocator refused at most 2^50 bytes *)
+Definition brefusal (b : buf) (n : Z) : Prop :=
+  SMALL < zlen (b_data b) + n \/ exists sz, sz <= 1125899906842624 /\ alloc_ok sz = false.
+
 Lemma breserve_spec b n :
   binv b -> 0 <= n <= ULONG_MAX ->
   match breserve b n with
   | Some s => zlen (b_data b) + n <= s /\ b_siz b <= s /\ 0 < s <= 4611686018427387904
-  | None => SMALL < zlen (b_data b) + n
+  | None => brefusal b n
   end.
 Proof.
   intros (Hlen & Hsiz) Hn. unfold BufferDefs.breserve.
   pose proof (zlen_nonneg (b_data b)) as Hl0.
   destruct (Z.ltb_spec (ULONG_MAX - zlen (b_data b)) n) as [Hov|Hov].
-  { unfold SMALL, ULONG_MAX in *. lia. }
+  { left. unfold SMALL, ULONG_MAX in *. lia. }
   destruct (Z.ltb_spec 0 (b_siz b)) as [Hpos|Hz]; cbn [andb].
   - destruct (Z.leb_spec (zlen (b_data b) + n) (b_siz b)) as [Hfit|Hfit]; [lia|].
     replace (b_siz b =? 0) with false by (symmetry; apply Z.eqb_neq; lia).
@@ -118,17 +121,17 @@ Proof.
     + apply grow_some in Eg. destruct Eg as (G1 & G2 & G3).
       destruct (alloc_ok s) eqn:Ea.
       * apply alloc_bounded in Ea. lia.
-      * destruct (Z.leb_spec (zlen (b_data b) + n) SMALL) as [Hsm|]; [exfalso|assumption].
-        rewrite alloc_small in Ea; [discriminate|]. unfold SMALL in *. lia.
-    + apply grow_none in Eg; [|assumption]. unfold SMALL. lia.
+      * destruct (Z.leb_spec (zlen (b_data b) + n) SMALL) as [Hsm|]; [right|left; assumption].
+        exists s. split; [unfold SMALL in *; lia|assumption].
+    + left. apply grow_none in Eg; [|assumption]. unfold SMALL. lia.
   - assert (b_siz b = 0) as Ez by lia. rewrite Ez. cbn [Z.eqb].
     destruct (grow GROW_FUEL init_cap (zlen (b_data b) + n)) as [s|] eqn:Eg.
     + apply grow_some in Eg. destruct Eg as (G1 & G2 & G3).
       destruct (alloc_ok s) eqn:Ea.
       * apply alloc_bounded in Ea. lia.
-      * destruct (Z.leb_spec (zlen (b_data b) + n) SMALL) as [Hsm|]; [exfalso|assumption].
-        rewrite alloc_small in Ea; [discriminate|]. unfold SMALL in *. lia.
-    + apply grow_none in Eg; [|lia]. unfold SMALL. lia.
+      * destruct (Z.leb_spec (zlen (b_data b) + n) SMALL) as [Hsm|]; [right|left; assumption].
+        exists s. split; [unfold SMALL in *; lia|assumption].
+    + left. apply grow_none in Eg; [|lia]. unfold SMALL. lia.
 Qed.
 
 Lemma bputs_spec b s :
@@ -136,7 +139,7 @@ Lemma bputs_spec b s :
   let '(b', o) := bputs init_cap alloc_ok b s in
   binv b' /\
   match o with
-  | BoInt 1 => b' = b /\ SMALL < zlen (b_data b) + zlen s
+  | BoInt 1 => b' = b /\ brefusal b (zlen s)
   | _ => o = BoInt 0 /\ b_data b' = b_data b ++ s /\ zlen (b_data b) + zlen s <= ULONG_MAX
   end.
 Proof.
@@ -154,13 +157,17 @@ Lemma ends_with_nul_rev l :
   match rev l with [] => true | c :: _ => negb (c =? 0)%N end = negb (ends_with_nul l).
 Proof. unfold ends_with_nul. destruct (rev l); reflexivity. Qed.
 
-Lemma bstep_refines b op :
+Definition brefusal_op (b : buf) (op : bop) : Prop :=
+  match brequest (b_data b) op with Some n => brefusal b n | None => False end.
+
+(* one operation, ANY allocator (bounded above only): a failure changes nothing and has a reason *)
+Lemma bstep_refines_gen b op :
   binv b -> bop_wf op ->
   (forall s, op = BPuts s \/ op = BPrintf s -> zlen s < ULONG_MAX) ->
   let '(b', o) := bstep b op in
   binv b' /\
   if bis_failure op o
-  then b' = b /\ bsmall_request (b_data b) op = false
+  then b' = b /\ brefusal_op b op
   else bmust_fail (b_data b) op = false /\ bout_ok op o (snd (sstep (b_data b) op)) = true /\
        b_data b' = fst (sstep (b_data b) op).
 Proof.
@@ -175,10 +182,10 @@ Proof.
       destruct (bputs init_cap alloc_ok b (c :: s)) as [b' o]. destruct Hp as [Hi' Ho].
       split; [assumption|].
       assert (Hnz : (zlen (c :: s) =? 0) = false) by (apply Z.eqb_neq; unfold zlen; simpl; lia).
-      unfold bsmall_request, bmust_fail. cbn [brequest]. rewrite Hnz.
+      unfold brefusal_op, bmust_fail. cbn [brequest]. rewrite Hnz.
       destruct o as [r| | | |]; try (destruct Ho as (? & _); discriminate).
       destruct (Z.eq_dec r 1) as [->|Hr].
-      * cbn [bis_failure]. destruct Ho as [-> Hbig]. split; [reflexivity|]. apply Z.leb_gt. assumption.
+      * cbn [bis_failure]. destruct Ho as [-> Hbig]. split; [reflexivity|]. assumption.
       * assert (bis_failure (BPuts (c :: s)) (BoInt r) = false) as ->
           by (cbn [bis_failure]; destruct r as [|[p|p|]|]; try reflexivity; congruence).
         assert (Ho' : BoInt r = BoInt 0 /\ b_data b' = b_data b ++ c :: s /\ zlen (b_data b) + zlen (c :: s) <= ULONG_MAX)
@@ -188,10 +195,10 @@ Proof.
   - (* putc *)
     pose proof (bputs_spec b [c] Hi ltac:(discriminate) ltac:(unfold zlen, ULONG_MAX; simpl; lia)) as Hp.
     destruct (bputs init_cap alloc_ok b [c]) as [b' o]. destruct Hp as [Hi' Ho].
-    split; [assumption|]. unfold bsmall_request, bmust_fail. cbn [brequest].
+    split; [assumption|]. unfold brefusal_op, bmust_fail. cbn [brequest].
     destruct o as [r| | | |]; try (destruct Ho as (? & _); discriminate).
     destruct (Z.eq_dec r 1) as [->|Hr].
-    + cbn [bis_failure]. destruct Ho as [-> Hbig]. split; [reflexivity|]. apply Z.leb_gt. exact Hbig.
+    + cbn [bis_failure]. destruct Ho as [-> Hbig]. split; [reflexivity|]. exact Hbig.
     + assert (bis_failure (BPutc c) (BoInt r) = false) as ->
         by (cbn [bis_failure]; destruct r as [|[p|p|]|]; try reflexivity; congruence).
       assert (Ho' : BoInt r = BoInt 0 /\ b_data b' = b_data b ++ [c] /\ zlen (b_data b) + zlen [c] <= ULONG_MAX)
@@ -201,23 +208,23 @@ Proof.
   - (* printf *)
     pose proof (zlen_nonneg s) as Hs0. specialize (Hsz s (or_intror eq_refl)).
     pose proof (breserve_spec b (zlen s + 1) Hi ltac:(lia)) as Hr.
-    unfold bsmall_request, bmust_fail. cbn [brequest].
+    unfold brefusal_op, bmust_fail. cbn [brequest].
     destruct (breserve b (zlen s + 1)) as [siz|].
     + destruct Hr as (H1 & H2 & H3).
       destruct (Z.leb_spec (siz - zlen (b_data b)) (zlen s)) as [Hbad|Hgood]; [lia|].
       cbn [bis_failure]. split; [unfold binv; cbn [b_siz b_data]; rewrite zlen_app; lia|].
       split; [apply Z.ltb_ge; unfold ULONG_MAX; lia|]. split; reflexivity.
-    + cbn [bis_failure]. split; [assumption|]. split; [reflexivity|]. apply Z.leb_gt. assumption.
+    + cbn [bis_failure]. split; [assumption|]. split; [reflexivity|]. assumption.
   - (* huge *)
-    cbn [bop_wf] in Hwf. unfold bsmall_request, bmust_fail. cbn [brequest].
+    cbn [bop_wf] in Hwf. unfold brefusal_op, bmust_fail. cbn [brequest].
     destruct (Z.eqb_spec n 0) as [->|Hn0].
     + cbn [bis_failure]. split; [assumption|]. repeat split.
     + destruct Hwf as [->|Hn]; [congruence|].
       pose proof (breserve_spec b n Hi ltac:(lia)) as Hr.
       destruct (breserve b n) as [siz|]; [lia|].
-      cbn [bis_failure]. split; [assumption|]. split; [reflexivity|]. apply Z.leb_gt. assumption.
+      cbn [bis_failure]. split; [assumption|]. split; [reflexivity|]. assumption.
   - (* str *)
-    rewrite ends_with_nul_rev. unfold bsmall_request, bmust_fail. cbn [brequest sstep fst snd].
+    rewrite ends_with_nul_rev. unfold brefusal_op, bmust_fail. cbn [brequest sstep fst snd].
     destruct (ends_with_nul (b_data b)) eqn:En; cbn [negb].
     + cbn [bis_failure bout_ok]. split; [unfold binv; cbn [b_siz b_data]; change (zlen []) with 0; lia|].
       rewrite beq_refl. repeat split.
@@ -225,7 +232,7 @@ Proof.
       destruct (breserve b 1) as [siz|].
       * cbn [bis_failure bout_ok]. split; [unfold binv; cbn [b_siz b_data]; change (zlen []) with 0; lia|].
         rewrite cstr_snoc_nul, beq_refl. split; [apply Z.ltb_ge; unfold ULONG_MAX; lia|]. split; reflexivity.
-      * cbn [bis_failure]. split; [assumption|]. split; [reflexivity|]. apply Z.leb_gt. assumption.
+      * cbn [bis_failure]. split; [assumption|]. split; [reflexivity|]. assumption.
   - (* reset *)
     cbn [bis_failure]. unfold bmust_fail. cbn [brequest sstep fst snd bout_ok b_data].
     split; [unfold binv; cbn [b_siz b_data]; change (zlen []) with 0; lia|]. repeat split.
@@ -260,6 +267,64 @@ Definition bsize_ok (op : bop) : Prop :=
 
 Definition btrace_of (ops : list bop) (tr : list (bout * Z)) : list (bop * bout) :=
   combine ops (map fst tr).
+
+(* a failed operation leaves the buffer exactly as it was *)
+Corollary bstep_fail_unchanged b op :
+  binv b -> bop_wf op -> bsize_ok op -> bis_failure op (snd (bstep b op)) = true -> fst (bstep b op) = b.
+Proof.
+  intros Hi Hwf Hsz Hf.
+  assert (Hsz' : forall s, op = BPuts s \/ op = BPrintf s -> zlen s < ULONG_MAX) by (intros s [->| ->]; exact Hsz).
+  pose proof (bstep_refines_gen b op Hi Hwf Hsz') as H.
+  destruct (bstep b op) as [b' o]. cbn [fst snd] in *. rewrite Hf in H. tauto.
+Qed.
+
+(* every operation sequence, ANY allocator: the fault-tolerant byte-string oracle accepts the model's trace *)
+Theorem brun_refines_any : forall ops b,
+  binv b -> Forall bop_wf ops -> Forall bsize_ok ops ->
+  let '(b', tr) := brun b ops in
+  length tr = length ops /\
+  spec_ok_buf_faulty (b_data b) (btrace_of ops tr) = true /\
+  b_data b' = bspec_final (b_data b) (btrace_of ops tr) /\
+  binv b'.
+Proof.
+  induction ops as [|op ops IH]; intros b Hi Hwf Hsz.
+  - simpl. split; [reflexivity|]. split; [reflexivity|]. split; [reflexivity|assumption].
+  - inversion Hwf as [|? ? Hop Hops]; subst. inversion Hsz as [|? ? Hs1 Hs2]; subst. cbn [BufferDefs.brun].
+    assert (Hsz' : forall s, op = BPuts s \/ op = BPrintf s -> zlen s < ULONG_MAX).
+    { intros s [->| ->]; exact Hs1. }
+    pose proof (bstep_refines_gen b op Hi Hop Hsz') as Hs.
+    destruct (bstep b op) as [b1 o]. destruct Hs as [Hi1 Hs].
+    specialize (IH b1 Hi1 Hops Hs2). destruct (brun b1 ops) as [b2 tr].
+    destruct IH as (Hl & Hok & Hfin & Hi2).
+    unfold btrace_of in *. cbn [map fst combine length spec_ok_buf_faulty bspec_final].
+    split; [now rewrite Hl|].
+    destruct (bis_failure op o) eqn:Ef.
+    + destruct Hs as [-> _]. split; [assumption|]. split; assumption.
+    + destruct Hs as (Hm & Ho & El). rewrite Hm, Ho. cbn [negb andb].
+      rewrite <- El. split; [assumption|]. split; assumption.
+Qed.
+
+(* ---- an allocator that grants every request of at most 2^50 bytes ------------------------- *)
+Hypothesis alloc_small : forall sz, sz <= 1125899906842624 -> alloc_ok sz = true.
+
+Lemma bstep_refines b op :
+  binv b -> bop_wf op ->
+  (forall s, op = BPuts s \/ op = BPrintf s -> zlen s < ULONG_MAX) ->
+  let '(b', o) := bstep b op in
+  binv b' /\
+  if bis_failure op o
+  then b' = b /\ bsmall_request (b_data b) op = false
+  else bmust_fail (b_data b) op = false /\ bout_ok op o (snd (sstep (b_data b) op)) = true /\
+       b_data b' = fst (sstep (b_data b) op).
+Proof.
+  intros Hi Hwf Hsz. pose proof (bstep_refines_gen b op Hi Hwf Hsz) as H.
+  destruct (bstep b op) as [b' o]. destruct H as [Hi' H]. split; [assumption|].
+  destruct (bis_failure op o); [|assumption].
+  destruct H as [-> Hr]. split; [reflexivity|].
+  unfold brefusal_op in Hr. unfold bsmall_request. destruct (brequest (b_data b) op) as [n|]; [|destruct Hr].
+  destruct Hr as [Hr|(sz & Hsz1 & Ha)]; [apply Z.leb_gt; assumption|].
+  rewrite alloc_small in Ha by assumption. discriminate.
+Qed.
 
 Theorem brun_refines : forall ops b,
   binv b -> Forall bop_wf ops -> Forall bsize_ok ops ->
